@@ -1925,7 +1925,7 @@ impl Bgi {
                     // print hotkey
                     if hotkey != 0 && hotkey != 255 {
                         let hk_ch = (hotkey as char).to_ascii_uppercase();
-                        for (i, ch) in text.chars().enumerate() {
+                        for (i, ch) in text.char_indices() {
                             if ch.to_ascii_uppercase() == hk_ch {
                                 let prefix_size: Size = self.get_text_size(&text[0..i]);
                                 if self.button_style.highlight_hotkey() {
@@ -1934,7 +1934,7 @@ impl Bgi {
                                 }
 
                                 if self.button_style.underline_hotkey() {
-                                    let hotkey_size = self.get_text_size(&text[i..=i]);
+                                    let hotkey_size = self.get_text_size(&text[i..i + ch.len_utf8()]);
                                     if self.button_style.display_dropshadow() {
                                         self.draw_line(
                                             tx + prefix_size.width + 1,
